@@ -22,6 +22,7 @@ THEOREMS = {
     'C19_words': 'no word is split, lost, duplicated or altered: the words of s are the words of the lines, line after line; also on the returned string',
     'C19_indent': 'every continuation line starts with the indent (un-stripped lines); an emitted continuation line starts with the indent or is a prefix of it (empty for a white-space indent)',
     'C19_width': 'a yielded line longer than width has no white space at any position p with |indent| < p <= width; a line that has such a legal break position has length <= width (also for the emitted, stripped lines)',
+    'C19_width_no_break_point': 'a line longer than the width contains no white space behind the indent at all (it has no break point)',
     'C19_greedy': 'lines are as long as possible (docstring): a break falls on a white-space position behind the indent, and the next white space (or the end of the string) after it lies beyond width',
     'C19_legal_break': 'every line that is followed by another line is longer than the indent: breaks happen strictly behind the indent region (what termination rests on)',
     'C19_rstrip': 'the returned string is the "\\n"-join of the lines with only trailing white space removed; no emitted line ends in white space',
@@ -182,7 +183,9 @@ def clauses(text, width, indent, out):
         if k > 0 and not (e.startswith(indent) or (indent.startswith(e) and (not ws_indent or e == ''))):
             fails.append('indent: continuation line %d does not start with the indent %r: %r' % (k, indent, e[:20]))
         if len(e) > width:
-            legal = [p for p in range(n + 1, min(width, len(e) - 1) + 1) if e[p] in WS]
+            # a line that is longer than the width must not contain ANY white space behind the indent: it could have
+            # been broken there (the function breaks at the first white space after an over-long word)
+            legal = [p for p in range(n + 1, len(e)) if e[p] in WS]
             if legal:
                 fails.append('width: line %d has length %d > %d although it has white space at legal break position(s) %r' % (k, len(e), width, legal[:5]))
     # the words, line by line
